@@ -58,6 +58,9 @@ def wavetype_of(prog, ev, mod, cls):
 
 
 def run(rep, prog, tier):
+    from .hidden import no_hidden_state
+    rep.rule('R08.state', 'no hidden state in the anchored modules: no function writes a module-level object, no caching decorator / cached property')
+    no_hidden_state(rep, 'R08.state', prog, ['SignalProcessing/periodic_functions.py'])
     rep.rule('R08.pair', 'for each entry of fourier_series_mapping: the normal form of the wave class\'s time function AND the phasor A_n e^{j phi_n} formed from the harmonic class\'s amplitude/phase methods (cases n=0, n=1, even n, odd n) equal one row of the reference table derived by hand integration')
     rep.rule('R08.abc', 'a = A cos phi, b = -A sin phi, c(n>=0) = A/2 e^{j phi}, c(n<0) = A(-n)/2 e^{-j phi(-n)}; amplitude(-n) = amplitude(n), phase(-n) = -phase(n)')
     rep.rule('R08.lookup', 'every wave class is a key of the mapping and maps to a distinct harmonic class overriding both abstract methods; wavetype names pairwise distinct; lookup by equality, miss raises; fourier_series passes amplitude->amplitude0, phase->phase0, offset->offset0')
